@@ -11,8 +11,11 @@ _PROBE = z3.Int("probe!")
 
 
 def struct_key(arr):
-    """structural identity of a 1-D array value: (term at a generic index, length term)"""
-    return (arr.snapshot()(_PROBE).get_id(), dim_term(arr.shape_[0]).get_id())
+    """structural identity of a 1-D array value: (term at a generic index, length term).
+    The terms are kept alive in the context (z3 recycles the ids of collected ASTs)."""
+    t, n = arr.snapshot()(_PROBE), dim_term(arr.shape_[0])
+    cur().ghost.setdefault("_alive", []).append((t, n))
+    return (t.get_id(), n.get_id())
 
 
 def _cache(kind):
